@@ -7,6 +7,7 @@ CONSTANTS
   MaxFaults = 0
   AllowCrash = TRUE
   AllowEmptyLeftover = FALSE
+  AllowTornRmdir = FALSE
   CombinerClearsQueueOnFailedFlush = TRUE
   Hash <- HashId
   ReaderReportsHunks = FALSE
